@@ -121,3 +121,13 @@ claim("C14",
       "to handler-written fields are post-join (C13.R3 re-run); every access to a thread/resultq/threadpool field satisfies its lock discipline or a counted listed exception; "
       "the CRC dispatch pointer is written only by the constructor-attributed detection. User callbacks, third-party libraries and the allocator are not decided.",
       "Trusts T-lock/T-roles exceptions (each one named symbol with a reason), type-based field effects (no aliasing between different record types), the build's constructor support.")
+
+claim("C07",
+      "typestate over abstract paths of the two reload functions (handle generation: declared current => rebuilt or known current), guard/decision-table rules for reload vs. open iterators, counting-pair and reload-before-use rules, filter formula",
+      "Decides: the setfile is reloaded only with n_iters==0 established on the path and only from the two reload functions; n_iters is incremented once per iterator in "
+      "the only wrapper all four source functions return through and decremented once by the registered free function, which then retries the reload; every source operation "
+      "reloads before using the merger; the reload decision equals T-cmp 24 (pending or strictly more than the interval, never under open iterators, NEVER honoured only when "
+      "nothing is pending) and the pending flag is cleared only after a reload; a handle stores its generation only when its merger was rebuilt or shown equal to the shared "
+      "generation with nothing loaded/unloaded since; a reader is added to the view iff non-NULL and accepted by every configured filter. Setfile parsing, keep/unload "
+      "bookkeeping over all histories, the clock, and snapshot contents are not decided.",
+      "Trusts that equal timestamps mean the same generation (as the code does), T-cmp rows 24/25, loop bound 1 for the file loop.")
